@@ -1,7 +1,27 @@
 """Translator plug-in for C10: the character classes of the Python runtime that wrap_string_for_mcnp rests on
 (str.isspace / str.strip, str.splitlines boundaries, textwrap's whitespace class and TextWrapper defaults).
 They are measured on the interpreter MontePy runs on, not copied from documentation."""
+import ast
+import inspect
 import textwrap
+
+
+def wrapper_kwargs():
+    """keyword arguments (constants only) of the textwrap.TextWrapper(...) call MontePy's wrapping code makes"""
+    from montepy.mcnp_object import MCNP_Object
+
+    out = {}
+    for name in ("_wrap_line", "wrap_string_for_mcnp"):
+        fn = getattr(MCNP_Object, name, None)
+        if fn is None:
+            continue
+        tree = ast.parse(textwrap.dedent(inspect.getsource(fn)))
+        for node in ast.walk(tree):
+            if isinstance(node, ast.Call) and getattr(node.func, "attr", getattr(node.func, "id", "")) == "TextWrapper":
+                for kw in node.keywords:
+                    if isinstance(kw.value, ast.Constant):
+                        out[kw.arg] = kw.value.value
+    return out
 
 
 def generate(write):
@@ -23,5 +43,13 @@ def generate(write):
     body += f"def textwrapReplaceWhitespace : Bool := {'true' if w.replace_whitespace else 'false'}\n"
     body += f"def textwrapBreakLongWords : Bool := {'true' if w.break_long_words else 'false'}\n"
     body += f"def textwrapMaxLinesIsNone : Bool := {'true' if w.max_lines is None else 'false'}\n"
+    kw = wrapper_kwargs()
+    defaults = textwrap.TextWrapper()
+    for arg, lean in (("drop_whitespace", "wrapDropWhitespace"), ("break_on_hyphens", "wrapBreakOnHyphens"),
+                      ("break_long_words", "wrapBreakLongWords"), ("expand_tabs", "wrapExpandTabs"),
+                      ("replace_whitespace", "wrapReplaceWhitespace")):
+        val = kw.get(arg, getattr(defaults, arg))
+        body += f"/-- `{arg}` as MontePy's TextWrapper call sets it (or the default) -/\n"
+        body += f"def {lean} : Bool := {'true' if val else 'false'}\n"
     body += "\nend MontePyVerif.Gen\n"
     write("PyText.lean", body)
